@@ -268,7 +268,7 @@ pub fn scenarios(tier: Tier) -> Vec<ScenarioDef> {
         let kname = match (uni, multi) { (Some(k), _) => format!("uni-{}", k.name()), (_, Some(k)) => format!("multi-{}", k.name()), _ => unreachable!() };
         for (m, predropped, streams) in [(2usize, 1usize, 1usize), (4, 2, 2)] {
             for events in 0..=1usize {
-                if tier == Tier::Quick && streams == 2 && events == 1 { continue }
+                if tier == Tier::Quick && streams == 2 { continue }
                 let spec = Spec { uni, multi, b: 8, m, streams, action: Action::CancelAll, events, late: false, recreate: false, predropped };
                 let threads = 1 + (events > 0) as usize + streams;
                 let bound = match tier { Tier::Quick => if threads <= 2 { 2 } else { 1 }, Tier::Thorough => if threads <= 3 { 3 } else { 2 } };
